@@ -407,6 +407,11 @@ def judge_measure(rec, prop):
         known = {n: o for n, o in outcomes.items() if n in names}
         e = S.expected_measure(rec, known)
         asg, problems = assign_draws(rec, [m for m in M if m in outcomes] or M, outcomes)
+        # independent draws: the conditional distributions are only the Born rule for the joint outcome if
+        # every draw of the call is an independent sample, i.e. uses its own key
+        keys = [d.get("key") for d in rec.draws if d.get("key") is not None]
+        if len(set(keys)) != len(keys):
+            problems = list(problems) + [("key-reused-within-call", f"{len(keys)} draws of one measure call used {len(set(keys))} distinct keys: the outcomes are not independent samples")]
         for mode, det in problems:
             out.append(V(prop, "violated", mode, det, cell=cell, ndraws=len(rec.draws), **sig))
         if not problems:
